@@ -114,6 +114,32 @@ def spice_future(nprs, F, H, lo_floor=None):
     return F
 
 
+TAIL_SIGMAS = [6.5, 7.0, 7.5, 8.0, 8.5, 9.0, 10.0, 12.0, 40.0]
+
+
+def far_tail(nprs, F, H, positive=False):
+    """several DISTINCT future values far outside the calibration range, where a fitted cdf saturates: mean ± 6.5 … 40 sd
+    of the calibration sample (a normal cdf is within 1e-10 of 1 from 6.4 sd and exactly 1.0 in doubles from 8.3 sd; exactly
+    0.0 only beyond 38 sd); for positive variables the lower tail is a ladder of tiny positive values instead"""
+    F = F.copy()
+    n = F.size
+    ref = H[H > 0] if positive and (H > 0).sum() > 1 else H
+    mu, sd = float(ref.mean()), max(float(ref.std()), 1e-12 * max(1.0, abs(float(ref.mean()))))
+    ks = list(nprs.choice(TAIL_SIGMAS, 5, replace=False)) + [8.5, 12.0]
+    up = [mu + k * sd * nprs.uniform(0.97, 1.03) for k in ks]
+    if positive:
+        up += [float(ref.max()) * m for m in (30.0, 80.0, 300.0)]
+        lo = [float(ref.min()) * m for m in (1e-2, 1e-5, 1e-9, 1e-30)]
+    else:
+        lo = [mu - k * sd * nprs.uniform(0.97, 1.03) for k in ks]
+    extra = up + lo
+    nprs.shuffle(extra)
+    idx = nprs.choice(n, min(max(2, n // 3), len(extra)), replace=False)
+    for i, e in zip(idx, extra):
+        F[i] = e
+    return F
+
+
 # ------------------------------------------------------------------ runners on the real code
 def _quiet():
     import logging
@@ -168,6 +194,8 @@ def make_case(kind, params, seed):
             k = nprs.choice(nF, min(nF, 6), replace=False)
             f[k[:3]] = thr * np.array([1.0, 1.25, 1.6])[: k[:3].size]
             f[k[3:]] = 0.0
+    if nprs.random() < 0.6:  # far tails: saturation of fitted cdfs / extrapolation far outside the calibration range
+        f = far_tail(nprs, f, h, positive=(data != "tas"))
     slack = 1e-12
     with warnings.catch_warnings():
         warnings.simplefilter("ignore")
@@ -254,6 +282,15 @@ def isimip_data(var, nprs, n, role, dry, mode="normal"):
             j = nprs.choice(n, max(1, n // 5), replace=False)
             x[j] = np.where(up[j], nprs.uniform(ut, ub, j.size), nprs.uniform(lb, lt, j.size))
         return x
+    if mode == "bell":  # pr / sfcwind in mm/day-like units, exact zeros the only dry values: bell-shaped observed wet amounts,
+        # exponential-like model amounts (a free-location fit of the observations would get a negative location)
+        if role == "obs":
+            x = np.maximum(nprs.normal(3.0, 1.6, n), 0.0)
+            x[nprs.random(n) < 0.2] = 0.0
+        else:
+            x = (4.0 + k - 1) * nprs.gamma(0.8, size=n)
+            x[nprs.random(n) < 0.1] = 0.0
+        return x
     if var == "pr":
         x = pr_like(nprs, n, min(0.95, max(0.03, dry + 0.05 * (k - 1))), (3.0 + 2 * k) / 86400, False)
         r = nprs.random()
@@ -284,6 +321,25 @@ def isimip_data(var, nprs, n, role, dry, mode="normal"):
     raise ValueError(var)
 
 
+def isimip_far_tail(var, nprs, f, h, shift):
+    """far-tail future values for the parametric step 6 (in unshifted units): where the fitted cdf saturates"""
+    f = f.copy()
+    n = f.size
+    if var == "tas":
+        mu, sd = float(h.mean()), float(h.std())
+        extra = [mu + sg * k * sd for k in nprs.choice(TAIL_SIGMAS, 3, replace=False) for sg in (1, -1)]
+    elif var in ("pr", "sfcwind"):
+        extra = [float(h.max()) * m for m in (5.0, 12.0, 30.0, 80.0, 300.0)]
+    else:
+        lb, lt, ut, ub = TWO_SIDED[var]
+        extra = [ut - (ut - lt) * 10.0 ** -e for e in (3, 6, 9, 12)] + [lt + (ut - lt) * 10.0 ** -e for e in (3, 6, 9, 12)]
+    nprs.shuffle(extra)
+    idx = nprs.choice(n, min(max(2, n // 4), len(extra)), replace=False)
+    for i, e in zip(idx, extra):
+        f[i] = e
+    return f
+
+
 def make_isimip(var, overrides):
     from ibicus.debias import ISIMIP
 
@@ -300,11 +356,23 @@ def run_isimip_case(var, overrides, stage, seed, dry=None, mode="normal"):
         dry = None if dry is None else dry
     else:
         dry = float(nprs.uniform(0.05, 0.95)) if dry is None else dry
-    nO, nH, nF = (int(nprs.randint(25, 120)) for _ in range(3))
+    overrides = dict(overrides)
+    shift = float(overrides.pop("_shift", 0.0))  # data, bounds and thresholds in units shifted by a constant
+    nO, nH, nF = (int(nprs.randint(120, 330)) for _ in range(3)) if mode == "bell" else (int(nprs.randint(25, 120)) for _ in range(3))
     o, h, f = (isimip_data(var, nprs, n, role, dry, mode) for n, role in ((nO, "obs"), (nH, "hist"), (nF, "fut")))
+    if mode == "normal" and nprs.random() < 0.5:
+        f = isimip_far_tail(var, nprs, f, h, shift)
     if mode != "allbounds" and nprs.random() < 0.5 and nF >= 8:  # ties among the future values
         a = nprs.choice(nF, 4, replace=False)
         f[a[0]], f[a[2]] = f[a[1]], f[a[3]]
+    if shift:
+        lb, lt, ut, ub = TWO_SIDED[var]
+        o, h, f = o - shift, h - shift, f - shift
+        # exact images of the special values (x - shift is exact for these decimals only up to rounding: snap them)
+        for arr in (o, h, f):
+            for v in (lb, lt, ut, ub):
+                arr[np.isclose(arr, v - shift, rtol=0, atol=1e-13)] = v - shift
+        overrides.update(lower_bound=lb - shift, lower_threshold=lt - shift, upper_threshold=ut - shift, upper_bound=ub - shift)
     deb = make_isimip(var, overrides)
     np.random.seed(seed % (2**31 - 1))
     yO, yH, yF = (np.repeat(np.arange(2000, 2000 + (n + 9) // 10), 10)[:n] for n in (nO, nH, nF))
@@ -393,6 +461,18 @@ def isimip_cases(rng, tier, mult):
                         continue
                     dry = rng.choice([0.05, 0.2, 0.5, 0.8, 0.95, None]) if var == "pr" else None
                     cases.append((var, ov, stage, dry, "normal"))
+        # legitimate ZERO-valued settings: a threshold of exactly 0 (only exact zeros are dry), and the two-sided variables in
+        # units shifted by a constant so that the lower threshold / upper threshold / upper bound is exactly 0.0
+        for var in ("pr", "sfcwind"):
+            for ov in ({"lower_threshold": 0.0}, {"lower_threshold": 0.0, "ks_test_for_goodness_of_cdf_fit": False}):
+                for stage in ("step6", "window"):
+                    cases.append((var, ov, stage, None, "bell"))
+            cases.append((var, {"lower_threshold": 0.0}, "step6", rng.choice([0.2, 0.5, None]) if var == "pr" else None, "normal"))
+        for var in ("hurs", "tasskew"):
+            lb, lt, ut, ub = TWO_SIDED[var]
+            for sh in (lt, ut, ub):
+                for ov in ({"_shift": sh}, {"_shift": sh, "nonparametric_qm": False}):
+                    cases.append((var, ov, rng.choice(["step6", "window"]), None, rng.choice(["normal", "normal", "allbounds"])))
         # windows in which every value lies beyond a threshold: nothing is left between the bounds
         for var in ("hurs", "tasskew", "prsnratio"):
             for ov in ({}, {"nonparametric_qm": False}):
